@@ -86,6 +86,9 @@ extern const Harness g_harness;
 // and terminate the run.
 [[noreturn]] void fail(const char* cls, const char* site, const char* fmt, ...)
     __attribute__((format(printf, 3, 4)));
+// Name the API call about to be made, so that a crash (signal) inside it is
+// reported with this site instead of the generic "signal" (nullptr resets).
+void set_crash_site(const char* site);
 // Count a "rare condition reached" probe.
 void probe(const char* name, uint64_t n = 1);
 // Count an injected fault that actually fired.
